@@ -81,7 +81,9 @@ Inductive result := Returned | Raised.                    (* how kernprof.main e
 Record Prog := mkProg {
   p_outcome : outcome;
   p_touch_path : bool;     (* the program does sys.path.append("/prog-added") *)
-  p_touch_argv : bool      (* the program does sys.argv.append("prog-added") *)
+  p_touch_argv : bool;     (* the program does sys.argv.append("prog-added") *)
+  p_uses_builtin : bool    (* the program decorates with the builtin `profile` whenever one exists
+                              (`try: profile / except NameError: profile = lambda f: f`) *)
 }.
 
 Record Opts := mkOpts {
@@ -100,6 +102,15 @@ Definition overwrite (g : GP) (p : option prof) : GP :=
   match kernprof_overwrite g p with Ok (_, g') => g' | Err _ => g end.
 
 Definition result_of (o : outcome) : result := match o with Exc => Raised | _ => Returned end.
+
+(* How the program really ends.  In plain cProfile mode (neither -l nor -b) kernprof does not
+   set builtins.profile, so a program that uses the builtin when there is one picks up whatever
+   an EARLIER in-process run left there; its decorated function then tries to enable that stale
+   profiler inside the running cProfile, which CPython 3.12 refuses with ValueError. *)
+Definition effective_outcome (o : Opts) (p : Prog) (found_builtin : option prof) : outcome :=
+  if p_uses_builtin p && negb (o_line o || o_builtin o)
+     && match found_builtin with Some _ => true | None => false end
+  then Exc else p_outcome p.
 
 Definition assign_argv (cfg : Fixes) (v : list string) (c : cell) : cell :=
   if fx_argv_inplace cfg then write_obj (ref c) v c
@@ -142,7 +153,7 @@ Definition main_body (cfg : Fixes) (o : Opts) (p : Prog) (s : St) : result * St 
                    then set_enabled (f_enabled found) (set_profile (f_profile found) (gp s))
                    else overwrite (gp s) None) s in
   let s := set_builtin (if fx_builtin cfg then found_builtin else builtin s) s in
-  (result_of (p_outcome p), s).
+  (result_of (effective_outcome o p found_builtin), s).
 
 (* ---- @_restore_list(<list>) as contextlib runs it ------------------------------------- *)
 Definition restore_cell (cfg : Fixes) (lst : Z) (old : list string) (c : cell) : cell :=
@@ -213,5 +224,5 @@ Definition mk_state (argv0 : list string) (argv_rebound : bool) (path0 : list st
 
 Definition st0 : St := mk_state ["driver"] false ["/lib"] false gp_init 0.
 Definition opts0 : Opts := mkOpts true false false None 0 ["prog.py"; "a"] "" "/T".
-Definition returns : Prog := mkProg Return false false.
-Definition raises : Prog := mkProg Exc false false.
+Definition returns : Prog := mkProg Return false false true.
+Definition raises : Prog := mkProg Exc false false true.
